@@ -306,3 +306,18 @@ def discharge(path, claim, timeout_ms=20000, portfolio=False, range_assumptions=
         if r5 == 'unsat':
             return done('unsat', 'fraction-free portfolio %s' % ans)
     return done('unknown', 'all stages unknown')
+
+
+def smt2_for(path, claim, limit=2500):
+    """SMT-LIB text of the (cone-of-influence sliced) query of a claim, for the evidence file"""
+    from . import sym as _sym
+    if getattr(claim, 'hyps', None) is not None:
+        allc = [(c, _sym.term_vars(c)) for c in claim.hyps]
+    else:
+        allc = [(c, _sym.term_vars(c)) for g in (path.assumptions, path.axioms, path.pc) for c in g]
+    neg = z3.Not(claim.t) if claim.kind == 'bool' else (claim.a != claim.b)
+    s_ = z3.Solver()
+    s_.add(*_sym.cone(allc, neg))
+    s_.add(neg)
+    txt = s_.to_smt2()
+    return txt if len(txt) <= limit else txt[:limit] + '\n; ... truncated (%d characters)' % len(txt)
